@@ -39,7 +39,9 @@ def run(ctx: Ctx):
 def guards(ctx: Ctx):
     ci = ctx.repo.cls(SMO, "_SingleSidedMovingAvgSmoother")
     m = ctx.repo.lookup(ci, "_can_smooth")
-    body = SUMMARIZER.summarize(m.node)
+    # `_window` (and any other private helper property) inlined: the table ranges over the window AS WRITTEN IN THE SPEC
+    # (absent, 0, 1, 2, ...), so the defaulting rule is part of what is decided
+    body = expand(ctx.repo, ci, "_can_smooth", bind={"base_values": ast.Name(id="base_values", ctx=ast.Load())}, stop=lambda mm: mm.name not in ("_window",))
     from ..dectab import DTop, Raises
     from ..typetab import dt_members, eval_over_types
 
@@ -49,9 +51,15 @@ def guards(ctx: Ctx):
     # the array handed in: empty / non-empty but all zeros / ordinary (whether smoothing applies depends on its SHAPE only)
     for size, nonzero in ((0, False), (3 * P, False), (3 * P, True)):
         for mem in dt_members(ctx.repo):
-            for w in (0, 1, 2, 3, P, P + 1, 50):
+            for w in (None, 0, 1, 2, 3, P, P + 1, 50):
                 def extra(x, size=size, w=w, nonzero=nonzero):
                     t = u(x)
+                    if t == "self._smoothing_dict":
+                        return {} if w is None else {"window": w}
+                    if t in ("self._smoothing_dict.get('window')",):
+                        return w
+                    if t in ("self._smoothing_dict.get('window', 2)",):
+                        return 2 if w is None else w
                     if t in ("base_values.any()", "np.any(base_values)", "base_values.sum()", "np.sum(base_values)", "np.count_nonzero(base_values)", "base_values.max()"):
                         return nonzero
                     if t in ("base_values.all()", "np.all(base_values)"):
@@ -63,10 +71,11 @@ def guards(ctx: Ctx):
                     if t in ("base_values.shape[-1]", "base_values.shape[1]"):
                         return P
                     if t == "self._window":
-                        return w
+                        return 2 if w is None else w
                     raise KeyError
 
-                want = size != 0 and mem == "CAT_DATE" and 2 <= w <= P
+                eff = 2 if w is None else w  # no window given: the default 2; an explicit 0 or 1 is a window below 2
+                want = size != 0 and mem == "CAT_DATE" and 2 <= eff <= P
                 try:
                     got = eval_over_types(ctx.repo, ci.module, body, {"self._dimension_type": mem}, extra)
                 except (DTop, Raises) as exc:
@@ -86,7 +95,7 @@ def guards(ctx: Ctx):
         ctx.ob("guard-table", where, bad[:4] or f"{n} (empty, dimension type, window) cases", "smoothed iff non-empty, categorical-date, 2 <= window <= periods (last axis)", not bad,
                "empty / not CAT_DATE / window > periods / window < 2 -> unsmoothed")
     e = expand(ctx.repo, ci, "_window", stop=lambda mm: True)
-    ctx.check_expr("guard-table.window", f"{SMO}::_SingleSidedMovingAvgSmoother._window", e, "self._smoothing_dict.get('window') or 2", "default window 2")
+    ctx.check_expr("guard-table.window", f"{SMO}::_SingleSidedMovingAvgSmoother._window", e, ["2 if self._smoothing_dict.get('window') is None else self._smoothing_dict.get('window')", "self._smoothing_dict.get('window', 2)"], "default window 2 when none is given (an explicit 0 is not 'none')")
     m = ctx.repo.lookup(ci, "smooth")
     body = SUMMARIZER.summarize(m.node)
     from ..stmts import check_side_paths
